@@ -1,13 +1,21 @@
 import PilotaModel.TGen.Decode
 import PilotaModel.Lemmas.BinaryRT
 import PilotaModel.Lemmas.CompactRT
+import PilotaModel.Lemmas.Tolerant
+import PilotaModel.Lemmas.ProjMono
+import PilotaModel.Lemmas.OpsRun
 /-
   C02 — generated Thrift types round trip under every protocol.
 
-  Full statement (DESIGN.md section 8, `gen_roundtrip`; not yet proved in full):
-    Conforms d n v → decode R d n (write p v ++ rest) = .ok (fillDefaults d n v, rest)
-  for every document, every declared type, every protocol.
-  Proved here (`_partial`: the leaves and the loop step the full induction is made of):
+  Main theorem (`gen_roundtrip_binary`; binary / little-endian / unchecked binary): for every document,
+  every declared type and every value `v` of the emitted type — `Canon`: a value that the decoder
+  itself maps to itself, i.e. fields in declaration order with defaults present, containers of the
+  declared element types, sets and map keys without duplicates — decoding what the emitted encoder
+  writes returns `v` and consumes exactly those bytes, with any trailing input left in place.
+  `decoded_is_canon_example` / `default_comes_back` show the one permitted difference (an absent
+  optional field with an IDL default comes back holding the default).
+  Still open: the same statement for the compact protocol (`gen_roundtrip_compact`); proved for
+  compact so far (`_partial`) are the leaves and the loop step the induction is made of:
   every base-typed value decodes back to itself under binary / LE / unchecked and compact with exact
   consumption (`base_roundtrip_*`), and a declared field whose wire type matches is decoded by its
   declared type and stored under its id, later occurrences replacing earlier ones (`known_field_decoded`).
@@ -16,6 +24,31 @@ import PilotaModel.Lemmas.CompactRT
 -/
 namespace Pilota.Props.C02
 open Pilota Pilota.Thrift Pilota.TGen
+
+/-- `v` is a value of the emitted type `ty` as the emitted encoder writes it: the decoder's own
+projection maps it to itself (with recursion budget `f`). -/
+def Canon (d : Doc) (dp : Option Nat) (f : Nat) (ty : STy) (v : TVal) : Prop := projTy d dp f ty v = some (.ok v)
+
+/-- **Round trip of emitted types, binary family.**  `hf`: the budget the projection needed is within the
+budget of the `decode` entry point (3 · input length + 8) — one unit per value node and per typedef link,
+while every node occupies at least one input byte. -/
+theorem gen_roundtrip_binary (e : Endian) (dp : Option Nat) (d : Doc) (n : String) (v : TVal) (rest : Bytes) (f : Nat)
+    (hw : v.wt = true) (hc : Canon d dp f (.ref n) v) (hf : f ≤ 3 * (Binary.run e v.ops ++ rest).length + 8) :
+    decode (binRd e dp) d n (Binary.run e v.ops ++ rest) = .ok (v, rest) := by
+  unfold decode
+  have hrem : (binRd e dp).remaining (Binary.run e v.ops ++ rest) = (Binary.run e v.ops ++ rest).length := rfl
+  rw [hrem]
+  have := (corr_all e dp d _).1 (.ref n) v rest (.ok v) hw (projTy_mono d dp f _ hf _ v v hc)
+  rw [Binary.run_ops] at this ⊢
+  exact this
+
+def demoDoc : Doc := [("S", .struct [{ id := 1, ty := .i32, required := true },
+  { id := 2, ty := .list (.ref "S"), required := false }, { id := 3, ty := .bool, required := false, dflt := some (.bool true) }])]
+def demoVal : TVal := .struct (.cons 1 (.i32 5) (.cons 2 (.list .struct (.cons (.struct (.cons 1 (.i32 6) (.cons 3 (.bool false) .nil))) .nil)) (.cons 3 (.bool true) .nil)))
+example : demoVal.wt = true ∧ Canon demoDoc (some 64) 12 (.ref "S") demoVal := ⟨by decide, by unfold Canon; decide⟩
+/-- the permitted difference: the absent optional field 3 comes back holding its IDL default -/
+theorem default_comes_back :
+    projTy demoDoc (some 64) 9 (.ref "S") (.struct (.cons 1 (.i32 5) .nil)) = some (.ok (.struct (.cons 1 (.i32 5) (.cons 3 (.bool true) .nil)))) := by decide
 
 /-- base schema types and the wire values that inhabit them -/
 def baseOf : TVal → Option STy
